@@ -21,6 +21,7 @@
 #include "verif.h"
 #include "alloc.h"
 #include "ref_cmpfind.h"
+#include "longpat.h"
 #include "st_string.h"
 
 #include <memory>
@@ -521,36 +522,10 @@ static void build(vf::Plan &plan, const vf::Opts &o)
     // blocks, stack copies of the needle), one byte of the occurrence perturbed at every position - by the ASCII case bit
     // (a match only for letters, in case-insensitive mode) and by +1 (never a match) - with every byte class at every position
     {
-        static const unsigned char ALPH[10] = {'a', 'B', '[', '1', '{', 0xC3, '_', 'Z', 'q', '@'};
-        std::vector<unsigned> lens;
-        if (T)
-            for (unsigned L = 1; L <= 80; ++L) lens.push_back(L);
-        else
-            lens = {7, 8, 9, 15, 16, 17, 24, 31, 32, 33, 40, 63, 64, 65, 72};
-        struct LN {
-            unsigned L, pos, rot, kind, ctx;
-        };
-        auto cases = std::make_shared<std::vector<LN>>();
-        for (unsigned L : lens)
-            for (unsigned pos = 0; pos < L; ++pos)
-                for (unsigned rot = 0; rot < 10; ++rot)
-                    for (unsigned kind = 0; kind < 3; ++kind)
-                        for (unsigned ctx = 0; ctx < 3; ++ctx) {
-                            if (kind == 2 && (pos != 0 || rot != 0)) continue;  // the unperturbed occurrence: once per length and context
-                            cases->push_back(LN{L, pos, rot, kind, ctx});
-                        }
-        auto mk = [](const LN &q, std::string &hay, std::string &needle) {
-            needle.clear();
-            for (unsigned j = 0; j < q.L; ++j) needle += (char)ALPH[(j + q.rot) % 10];
-            std::string occ = needle;
-            if (q.kind == 0) occ[q.pos] = (char)(occ[q.pos] ^ 0x20);
-            else if (q.kind == 1) occ[q.pos] = (char)(occ[q.pos] + 1);
-            // contexts: alone; behind two bytes and followed by a proper prefix of the needle that reaches the end of the
-            // haystack (a window test done too late reads past the end); followed by a true occurrence
-            hay = q.ctx == 0 ? occ : q.ctx == 1 ? "xy" + occ + needle.substr(0, q.L - 1) : occ + needle;
-        };
+        auto cases = std::make_shared<std::vector<lp::LN>>(lp::cases(T));
+        auto mk = [](const lp::LN &q, std::string &hay, std::string &needle) { lp::make(q, hay, needle); };
         auto &st = plan.stage(strf("long needles: lengths %s, one byte of the occurrence flipped in bit 5 / incremented at every position, "
-                                   "10 byte classes, 3 contexts", T ? "1..80" : "{7,8,9,15,16,17,24,31,32,33,40,63,64,65,72}"),
+                                   "10 byte classes, 3 contexts", lp::lens_text(T)),
                               cases->size(),
                               [cases, mk, EXT_LIGHT](uint64_t i, Ctx &c) {
                                   std::string hay, needle;
